@@ -78,7 +78,7 @@ def _find_playback_test(cwd, short):
     return None, None, None
 
 
-def replay_playback(cwd, package, target_dir, hname, logdir, timeout=5400):
+def replay_playback(cwd, package, target_dir, hname, logdir, timeout=5400, cbmc_args=None):
     """Kani concrete playback: re-run the failing harness asking CBMC for concrete values, let
     Kani write the unit test into the (scratch copy of the) harness file, then run that test
     natively (ordinary compiled Rust, no solver).  -> (reproduced|None, test name, test text, log)"""
@@ -100,7 +100,7 @@ def replay_playback(cwd, package, target_dir, hname, logdir, timeout=5400):
                     open(fp, 'w').write(txt)
     core.run_kani(cwd, package, target_dir, [short], 1, timeout, 40, timeout,
                   extra=['-Z', 'concrete-playback', '--concrete-playback=inplace'],
-                  logfile=os.path.join(logdir, f'playback-{short}.gen.log'))
+                  logfile=os.path.join(logdir, f'playback-{short}.gen.log'), cbmc_args=cbmc_args)
     test, text, fp = _find_playback_test(cwd, short)
     if not test:
         return None, None, None, 'no concrete playback test was generated'
@@ -181,6 +181,27 @@ def run_part(prop, pi, part, hdir, tier, seed, args, logdir):
             log(f'[{prop}] part {pi} ({engine}): {len(sel)} harnesses, tier {tier}, {jobs} parallel, '
                 f'{tmo}s/harness, building ...')
             rec = part.get('recursion_bound')
+            uws = part.get('unwindset')
+            loop_args = None
+            if uws:
+                # per-loop unwinding bounds for library loops whose trip count the harness bounds far
+                # below the crate-wide #[kani::unwind] (nested iterator adapters otherwise unroll
+                # bound x bound).  Unwinding assertions stay on: a bound that is too small is
+                # reported as inconclusive, never silently truncated.
+                names_map = core.find_mangled(cwd, package, target_dir, names[:1], None, exact,
+                                              os.path.join(logdir, f'part{pi}-codegen.log')) or {}
+                ids = []
+                for u in uws:
+                    rx = re.compile(u['fn_regex'])
+                    hit = [k for k, v in names_map.items() if v and rx.search(v)]
+                    if not hit:
+                        raise Inconclusive(f"unwindset: no compiled function matches {u['fn_regex']} (anchor drift?)")
+                    for k in hit:
+                        for li in range(int(u.get('loops', 1))):
+                            ids.append(f"{k}.{li}:{int(u['bound'])}")
+                loop_args = ['--unwindset', ','.join(ids)]
+                log(f'[{prop}]   unwindset: {len(ids)} library loops bounded separately')
+                out['loop_args'] = loop_args
             if rec:
                 # CBMC cannot see the variant of a nested term as a constant and would explore every
                 # arm of the recursive function down to the global unwind bound; bound the recursion
@@ -208,7 +229,7 @@ def run_part(prop, pi, part, hdir, tier, seed, args, logdir):
             else:
                 r = core.run_kani(cwd, package, target_dir, names, jobs, tmo, mem, exact=exact,
                                   total_timeout=tmo * ((len(sel) + jobs - 1) // jobs) + 3600,
-                                  logfile=os.path.join(logdir, f'part{pi}.log'))
+                                  logfile=os.path.join(logdir, f'part{pi}.log'), cbmc_args=loop_args)
             m = re.search(r'Finished `\w+` profile.*? in ([0-9.]+)s', r['out'])
             out['build_s'] = float(m.group(1)) if m else 0.0
             if not r['built']:
@@ -254,7 +275,7 @@ def run_part(prop, pi, part, hdir, tier, seed, args, logdir):
                     reproduced = True
                 else:
                     log(f"[{prop}] replaying counterexample of {h['name']} natively ...")
-                    reproduced, test, text, txt = replay_playback(cwd, package, target_dir, h['name'], logdir)
+                    reproduced, test, text, txt = replay_playback(cwd, package, target_dir, h['name'], logdir, cbmc_args=out.get('loop_args'))
                     rp['native_replay'] = {'reproduced': reproduced, 'test': test, 'log_tail': txt}
                     rp['concrete_playback_test'] = text
                 os.makedirs(os.path.join(VERIF, 'evidence', 'replay'), exist_ok=True)
